@@ -181,6 +181,104 @@ def _mul_bindings(ctx):
     return out
 
 
+def _gmul(a: int, b: int) -> int:
+    """Multiplication in GF(2^8) modulo x^8 + x^4 + x^3 + x + 1 (FIPS-197 4.2)."""
+    r = 0
+    for _ in range(8):
+        if b & 1:
+            r ^= a
+        hi = a & 0x80
+        a = (a << 1) & 0xFF
+        if hi:
+            a ^= 0x1B
+        b >>= 1
+    return r
+
+
+def _column_matrix(ctx, fi, fn, mul):
+    """The 4x4 matrix over GF(2^8) that one iteration of the column loop applies to a column, by abstract interpretation of the loop body in
+    the domain of GF(2^8)-linear combinations of the four input bytes: reading a slot gives its current combination, `^` adds, `_MULk[e]`
+    scales by k, stores and `^=` update the slot *in place* (so a later statement that reads an already updated slot sees the update).
+    Any form that is straight-line and linear is decided; anything else is refused."""
+    loops = [n for n in fi.node.body if isinstance(n, ast.For)]
+    if len(loops) != 1:
+        raise AnalysisError(f"C20-MIX: {fn} is no longer one loop over the 4 columns")
+    lp = loops[0]
+    it = norm(lp.iter)
+    tv = lp.target.id if isinstance(lp.target, ast.Name) else None
+    base = None
+    if it == "range(4)":
+        pass  # base is assigned in the body: i = 4 * col
+    elif it in ("(0, 4, 8, 12)", "[0, 4, 8, 12]", "range(0, 16, 4)"):
+        base = tv
+    else:
+        raise AnalysisError(f"C20-MIX: {fn}: the column loop `for {tv} in {it}` is not one pass over the 4 columns")
+    unit = [{k: 1} for k in range(4)]
+    slots = [dict(u) for u in unit]
+    env: dict[str, dict] = {}
+
+    def slot_of(idx) -> int | None:
+        t = norm(idx)
+        for k in range(4):
+            if t in (f"{base} + {k}", f"{k} + {base}") or (k == 0 and t == base):
+                return k
+        return None
+
+    def xor(a, b):
+        out = dict(a)
+        for k, v in b.items():
+            out[k] = out.get(k, 0) ^ v
+            if out[k] == 0:
+                del out[k]
+        return out
+
+    def ev(e):
+        if isinstance(e, ast.BinOp) and isinstance(e.op, ast.BitXor):
+            return xor(ev(e.left), ev(e.right))
+        if isinstance(e, ast.Name):
+            if e.id in env:
+                return env[e.id]
+            raise AnalysisError(f"C20-MIX: {fn}: `{e.id}` is read before it is a combination of the column bytes")
+        if isinstance(e, ast.Subscript) and isinstance(e.value, ast.Name):
+            if e.value.id == "state":
+                k = slot_of(e.slice)
+                if k is None:
+                    raise AnalysisError(f"C20-MIX: {fn}: index `{norm(e.slice)}` not recognised")
+                return slots[k]
+            if e.value.id in mul:
+                c = mul[e.value.id]
+                return {k: _gmul(v, c) for k, v in ev(e.slice).items() if _gmul(v, c)}
+        if isinstance(e, ast.Constant) and e.value == 0:
+            return {}
+        raise AnalysisError(f"C20-MIX: {fn}: term `{norm(e)}` is not a GF(2^8)-linear combination of the column bytes")
+
+    for st in lp.body:
+        if isinstance(st, ast.Assign) and len(st.targets) == 1 and isinstance(st.targets[0], ast.Name) and tv is not None and norm(st.value) in (f"4 * {tv}", f"{tv} * 4"):
+            base = st.targets[0].id
+        elif isinstance(st, ast.Assign) and len(st.targets) == 1 and isinstance(st.targets[0], ast.Tuple) and isinstance(st.value, ast.Subscript) and norm(st.value) == f"state[{base}:{base} + 4]":
+            for k, t in enumerate(st.targets[0].elts):
+                env[t.id] = slots[k]
+        elif isinstance(st, ast.Assign) and len(st.targets) == 1 and isinstance(st.targets[0], ast.Name):
+            env[st.targets[0].id] = ev(st.value)
+        elif isinstance(st, ast.Assign) and len(st.targets) == 1 and isinstance(st.targets[0], ast.Subscript) and norm(st.targets[0].value) == "state":
+            k = slot_of(st.targets[0].slice)
+            if k is None:
+                raise AnalysisError(f"C20-MIX: {fn}: store index `{norm(st.targets[0].slice)}` not recognised")
+            slots[k] = ev(st.value)
+        elif isinstance(st, ast.AugAssign) and isinstance(st.op, ast.BitXor) and isinstance(st.target, ast.Subscript) and norm(st.target.value) == "state":
+            k = slot_of(st.target.slice)
+            if k is None:
+                raise AnalysisError(f"C20-MIX: {fn}: store index `{norm(st.target.slice)}` not recognised")
+            slots[k] = xor(slots[k], ev(st.value))
+        elif isinstance(st, ast.AugAssign) and isinstance(st.op, ast.BitXor) and isinstance(st.target, ast.Name):
+            env[st.target.id] = xor(env.get(st.target.id, {}), ev(st.value))
+        elif isinstance(st, ast.Expr) and isinstance(st.value, ast.Constant):
+            continue
+        else:
+            raise AnalysisError(f"C20-MIX: {fn}: statement `{norm(st)[:60]}` is not part of a straight-line linear column transform")
+    return {r: [slots[r].get(k, 0) for k in range(4)] for r in range(4)}
+
+
 def rule_mix(ctx: Ctx) -> RuleReport:
     rep = RuleReport("C20-MIX", "MixColumns / InvMixColumns coefficient matrices, ShiftRows rotations, multiplication-table bindings")
     mul = _mul_bindings(ctx)
@@ -189,51 +287,7 @@ def rule_mix(ctx: Ctx) -> RuleReport:
     for fn, first_row in (("_mix_columns", [2, 3, 1, 1]), ("_inv_mix_columns", [14, 11, 13, 9])):
         fi = ctx.p.func(AES, fn)
         rep.unit(fi.key)
-        loops = [n for n in fi.node.body if isinstance(n, ast.For)]
-        if len(loops) != 1 or norm(loops[0].iter) != "range(4)":
-            raise AnalysisError(f"C20-MIX: {fn} is no longer one loop over the 4 columns")
-        body = loops[0].body
-        colvar = loops[0].target.id
-        # i = 4 * col ; a0..a3 = state[i:i+4]
-        base = None
-        avars = None
-        matrix = {}
-        for st in body:
-            if isinstance(st, ast.Assign) and isinstance(st.targets[0], ast.Name) and norm(st.value) in (f"4 * {colvar}", f"{colvar} * 4"):
-                base = st.targets[0].id
-            elif isinstance(st, ast.Assign) and isinstance(st.targets[0], ast.Tuple) and isinstance(st.value, ast.Subscript):
-                avars = [e.id for e in st.targets[0].elts]
-                if norm(st.value) != f"state[{base}:{base} + 4]":
-                    raise AnalysisError(f"C20-MIX: {fn}: column load `{norm(st.value)}` not recognised")
-            elif isinstance(st, ast.Assign) and isinstance(st.targets[0], ast.Subscript) and norm(st.targets[0].value) == "state":
-                idx = norm(st.targets[0].slice)
-                r = None
-                for k in range(4):
-                    if idx in (f"{base} + {k}", f"{k} + {base}") or (k == 0 and idx == base):
-                        r = k
-                if r is None:
-                    raise AnalysisError(f"C20-MIX: {fn}: store index `{idx}` not recognised")
-                row = [0, 0, 0, 0]
-                terms = []
-
-                def flat(e):
-                    if isinstance(e, ast.BinOp) and isinstance(e.op, ast.BitXor):
-                        flat(e.left)
-                        flat(e.right)
-                    else:
-                        terms.append(e)
-
-                flat(st.value)
-                for t in terms:
-                    if isinstance(t, ast.Name) and avars and t.id in avars:
-                        row[avars.index(t.id)] ^= 1
-                    elif isinstance(t, ast.Subscript) and isinstance(t.value, ast.Name) and t.value.id in mul and isinstance(t.slice, ast.Name) and avars and t.slice.id in avars:
-                        row[avars.index(t.slice.id)] ^= mul[t.value.id]
-                    else:
-                        raise AnalysisError(f"C20-MIX: {fn}: term `{norm(t)}` not recognised")
-                matrix[r] = row
-        if avars is None or len(matrix) != 4:
-            raise AnalysisError(f"C20-MIX: {fn}: could not extract a 4x4 coefficient matrix")
+        matrix = _column_matrix(ctx, fi, fn, mul)
         expect = {r: [first_row[(j - r) % 4] for j in range(4)] for r in range(4)}
         if matrix == expect:
             rep.ok({fn: [matrix[r] for r in range(4)]})
